@@ -23,6 +23,7 @@
 #include <stdlib.h>
 #include <string.h>
 #include <sys/wait.h>
+#include <sys/syscall.h>
 #include <time.h>
 #include <unistd.h>
 
@@ -37,13 +38,14 @@ extern void snoopy_configuration_preinit_enableAltConfigFileParsing(char *path);
 #include <dlfcn.h>
 static int (*real_lock)(pthread_mutex_t *), (*real_unlock)(pthread_mutex_t *);
 static ssize_t (*real_write)(int, const void *, size_t);
+static int (*real_close)(int);
 static int resolving;
 __attribute__((constructor)) static void resolve(void)
 {
     if (real_lock || resolving) return;
     resolving = 1;
     real_lock = dlsym(RTLD_NEXT, "pthread_mutex_lock"); real_unlock = dlsym(RTLD_NEXT, "pthread_mutex_unlock");
-    real_write = dlsym(RTLD_NEXT, "write");
+    real_write = dlsym(RTLD_NEXT, "write"); real_close = dlsym(RTLD_NEXT, "close");
     resolving = 0;
 }
 static int __pthread_mutex_lock(pthread_mutex_t *m) { if (!real_lock) { resolve(); if (!real_lock) return 0; } return real_lock(m); }
@@ -107,6 +109,20 @@ ssize_t write(int fd, const void *buf, size_t n)
         return r;
     }
     return real_write(fd, buf, n);
+}
+/* so is a close(2) issued by the library itself: a descriptor number released here may be handed to another thread's open() at once,
+   so a stale or doubled close shows as another thread's lost record or unread configuration */
+int close(int fd)
+{
+    if (!real_close) { resolve(); }
+    if (me && in_call && fd > 2 && !free_run) {
+        if (mode_measure) { snprintf(measured + strlen(measured), sizeof measured - strlen(measured), "%s\"io\"", measured[0] ? "," : ""); return real_close(fd); }
+        park(ST_WANT);
+        int r = real_close(fd);
+        park(ST_HOLD);
+        return r;
+    }
+    return real_close ? real_close(fd) : (int) syscall(SYS_close, fd);
 }
 /* --wrap shims label the critical sections in measure mode */
 extern void __real_snoopy_tsrm_ctor(void); extern void __real_snoopy_tsrm_dtor(void); extern int __real_snoopy_tsrm_get_threadCount(void);
